@@ -35,6 +35,14 @@ Theorem C13_default_constructor_is_pow2 :
 Proof. intros. reflexivity. Qed.
 Print Assumptions C13_default_constructor_is_pow2.
 
+(* ... and so is the table built for ANY constructor argument initial_size below 2048
+   (Backend::Size(initial_size, 1.4) and Power2Mod::RoundBuckets, by computation over the regenerated constants),
+   hence C13_history_refines_set covers `AutoProbing<...> table(n);` too. *)
+Theorem C13_constructor_is_pow2 :
+  forall (V : Type) (v0 : V) (n : N), n < 2048 -> exists e, auto_init_n V v0 n = init_pow2 V v0 e.
+Proof. exact constructor_is_pow2. Qed.
+Print Assumptions C13_constructor_is_pow2.
+
 (* One step from ANY state satisfying the invariant (not only reachable ones). *)
 Theorem C13_step_refines :
   forall (V : Type) (v0 : V) (hash : N -> N) (a : auto V) e m o sa m',
